@@ -56,10 +56,10 @@ def astep (a : ASt) : Op → ASt
         { (a.emit (.section s)) with cur := s, entered := s :: a.entered, reentered := a.reentered || a.entered.contains s }
       else a
   | .cpool l isz bytes =>
-      if !(isz = 1 || isz = 2 || isz = 4 || isz = 8 || isz = 16) || hexLen bytes % isz != 0 then a else
+      if !cpoolPre isz bytes then a else
       if !(l < a.nLabels) then a else
+      if a.bound.contains l then a else       -- BaseAssembler::embed_const_pool refuses a bound label before the padding is emitted
       let a := a.emit (.align 1 (if hexLen bytes = 0 then 0 else isz))
-      if a.bound.contains l then a else
       { ((a.emit (.bind l)).emit (.data 35 (hexLen bytes) 1 bytes)) with bound := l :: a.bound }
   | _ => a
 
